@@ -1044,6 +1044,13 @@ func (e *CEnv) call(n *ast.CallExpr) *Val {
 	case "seqeq":
 		a := e.args(n, 2, "seqeq")
 		return boolVal(e.seqEq(e.toSeq(a[0]), e.toSeq(a[1])))
+	case "subseq":
+		// subseq(s, lo, n): the n elements of s starting at lo
+		a := e.args(n, 3, "subseq")
+		s0 := e.toSeq(a[0])
+		lo := e.x.toIdx(st, e.typed(a[1], types.Typ[types.Int]))
+		ln := e.x.toIdx(st, e.typed(a[2], types.Typ[types.Int]))
+		return &Val{K: KSeq, S: s0.S, Fs: []*Val{scalar(nil, KInt, m.add(s0.Fs[0].S, lo)), scalar(nil, KInt, ln)}}
 	case "seqcat":
 		// seqcat(r, a, b): r == a ++ b
 		a := e.args(n, 3, "seqcat")
@@ -1310,11 +1317,27 @@ func (e *CEnv) toSeq(a *Val) *Val { return e.content(a) }
 
 func (e *CEnv) seqEq(a, b *Val) Tm {
 	m := e.st.m
+	bs := m.intSort(intInfo{8, false})
+	at := func(i Tm) Tm {
+		return eq(sel(a.S, m.add(a.Fs[0].S, i), bs), sel(b.S, m.add(b.Fs[0].S, i), bs))
+	}
+	if e.sides == nil && e.pol < 0 {
+		// to be proved: skolemise
+		sk := e.st.declare("sk.k", m.idx())
+		e.st.trigger(sk)
+		e.st.trigger(m.add(a.Fs[0].S, sk))
+		e.st.trigger(m.add(b.Fs[0].S, sk))
+		return and(eq(a.Fs[1].S, b.Fs[1].S), implies(and(m.le(m.idxLit(0), sk), m.lt(sk, a.Fs[1].S)), at(sk)))
+	}
 	bn := freshName("k")
 	i := Tm{bn, m.idx()}
-	bs := m.intSort(intInfo{8, false})
-	body := eq(sel(a.S, m.add(a.Fs[0].S, i), bs), sel(b.S, m.add(b.Fs[0].S, i), bs))
-	q := tm(SBool, "(forall ((%s %s)) (=> %s %s))", bn, m.idx(), and(m.le(m.idxLit(0), i), m.lt(i, a.Fs[1].S)).S, body.S)
+	rng := and(m.le(m.idxLit(0), i), m.lt(i, a.Fs[1].S))
+	var q Tm
+	if e.pol > 0 {
+		q = tm(SBool, "(forall ((%s %s)) (! (=> %s %s) :pattern ((%s %s))))", bn, m.idx(), rng.S, at(i).S, e.x.trUF(m.idx()), bn)
+	} else {
+		q = tm(SBool, "(forall ((%s %s)) (=> %s %s))", bn, m.idx(), rng.S, at(i).S)
+	}
 	return and(eq(a.Fs[1].S, b.Fs[1].S), q)
 }
 
@@ -1332,6 +1355,8 @@ func (x *Exec) ghostKeySort(m Mode, k string) Sort {
 		return m.idx()
 	case "bool":
 		return SBool
+	case "bytes":
+		return ArrOf(m.idx(), m.intSort(intInfo{8, false}))
 	case "byte":
 		return m.intSort(intInfo{8, false})
 	}
@@ -1402,6 +1427,9 @@ func (e *CEnv) ghostResult(gd *GhostDecl, t Tm) *Val {
 	switch strings.Fields(gd.Result)[0] {
 	case "bool":
 		return boolVal(t)
+	case "bytes":
+		m := e.st.m
+		return &Val{K: KSeq, S: t, Fs: []*Val{scalar(nil, KInt, m.idxLit(0)), scalar(nil, KInt, m.lit(maxLen, goInt))}}
 	case "ref":
 		return &Val{T: types.Typ[types.UnsafePointer], K: KPtr, S: t}
 	case "byte":
